@@ -77,19 +77,20 @@ Qed.
 (** a unit with an admissible index path reaches [update_leaf] on an unchanged tree *)
 Lemma gnmi_update1_unit_ok t now n p :
   unit_ok n = Some p ->
-  exists t1 u, t_tree t1 = t_tree t /\ gnmi_update1 t now n = update_leaf t1 now p u n.
+  exists t1 u, t_tree t1 = t_tree t /\ frame t t1 /\ gnmi_update1 t now n = update_leaf t1 now p u n.
 Proof.
   unfold gnmi_update1, unit_ok.
   destruct (n_upd n) as [|u us]; [discriminate|].
   destruct (unit_index n) as [p'|e|w]; try discriminate.
   destruct p' as [|p0 prest]; [discriminate|]. unfold update_pre.
   destruct (negb (String.eqb p0 md_root)).
-  - intros E; inversion E; subst. exists t, u. split; reflexivity.
+  - intros E; inversion E; subst. exists t, u. split; [reflexivity|]. split; [apply frame_refl|reflexivity].
   - destruct prest as [|k rest]; [discriminate|].
     destruct (meta_val_ok k (match rest with [] => true | _ :: _ => false end) (u_val u)) eqn:Hok; [|discriminate].
     intros E; inversion E; subst.
     destruct (meta_side_effect_ok t k _ u Hok) as (t1 & Hm). rewrite Hm.
-    exists t1, u. split; [exact (proj1 (meta_side_effect_frame _ _ _ _ _ _ Hm))|reflexivity].
+    exists t1, u. split; [exact (proj1 (meta_side_effect_frame _ _ _ _ _ _ Hm))|].
+    split; [exact (proj2 (meta_side_effect_frame _ _ _ _ _ _ Hm))|reflexivity].
 Qed.
 
 Lemma unit_collision_iff t now n p t' r :
@@ -97,7 +98,7 @@ Lemma unit_collision_iff t now n p t' r :
   (collision r <->
    exists q w, lookup (t_tree t) q = Some w /\ (strict_prefix q p = true \/ strict_prefix p q = true)).
 Proof.
-  intros Hwf Hok E. destruct (gnmi_update1_unit_ok t now n p Hok) as (t1 & u & Htr & Hg).
+  intros Hwf Hok E. destruct (gnmi_update1_unit_ok t now n p Hok) as (t1 & u & Htr & _ & Hg).
   rewrite Hg in E. rewrite <- Htr in *. eapply update_leaf_collision_iff; eauto.
 Qed.
 
@@ -596,4 +597,353 @@ Example ex_hist_all_events :
   lookup (t_tree (trun ex_t0 ex_hist_all)) ["a"; "b"] = None /\
   lookup (t_tree (trun ex_t0 ex_hist_all)) ["a"; "b"; "c"] = Some (ex_bc 5) /\
   map fst (frun 2 ex_t0 [] ex_hist_all) = [["a"; "c"]; ["a"; "b"; "c"]].
+Proof. vm_compute. repeat split. Qed.
+
+(** * The latest accepted timestamp, on the specification side (round 7b)
+
+    The reference of the future guard is the greatest timestamp of the
+    TRACKED and ACCEPTED notifications so far.  Tracked ([tracks_ts]) depends
+    on the notification alone (it has an update and the index of its first
+    update is not under meta).  Accepted is decided here on the flat map: some
+    update unit of the notification, met in the flat map its predecessors
+    left, is neither refused nor kept out by the four-line rule (older /
+    identical / too far ahead).  The latest timestamp moves only after the
+    whole notification, as in the code (deferred checkTimestamp). *)
+
+Definition okb {A} (r : outcome A) : bool := match r with Ok _ => true | _ => false end.
+
+(** does the four-line rule store [m] over [old] *)
+Definition spec_accepts (thr now : Z) (latest : option Z) (old : option notif) (m : notif) : bool :=
+  match old with
+  | None => true
+  | Some o =>
+      if Z.ltb (n_ts m) (n_ts o) then false
+      else if Z.eqb (n_ts m) (n_ts o) then negb (notif_eqb o m)
+      else negb (future_guard thr now latest (n_ts m))
+  end.
+
+Definition uaccepts (thr : Z) (latest : option Z) (now : Z) (f : fmap) (e : unit_ev) : bool :=
+  match e with
+  | UUpd m => match unit_ok m with
+              | Some p => negb (sconflict f p) && spec_accepts thr now latest (slookup f p) m
+              | None => false
+              end
+  | UDel _ => false
+  end.
+
+Fixpoint units_accept (thr : Z) (latest : option Z) (now : Z) (f : fmap) (us : list unit_ev) : bool :=
+  match us with
+  | [] => false
+  | e :: us' => uaccepts thr latest now f e || units_accept thr latest now (funit thr latest now f e) us'
+  end.
+
+Definition slatest_next (thr : Z) (latest : option Z) (now : Z) (f : fmap) (n : notif) : option Z :=
+  if tracks_ts n && units_accept thr latest now f (units n) then smax latest (n_ts n) else latest.
+
+Lemma units_accept_app thr latest now us1 : forall f us2,
+  units_accept thr latest now f (us1 ++ us2) =
+  units_accept thr latest now f us1 || units_accept thr latest now (funits thr latest now f us1) us2.
+Proof.
+  induction us1 as [|e us1 IH]; intros f us2; cbn [app units_accept funits fold_left]; [reflexivity|].
+  rewrite IH, orb_assoc. reflexivity.
+Qed.
+
+Lemma units_accept_dels thr latest now n ds : forall f,
+  units_accept thr latest now f (map (fun d => UDel (clone_with_delete n d)) ds) = false.
+Proof. induction ds as [|d ds IH]; intros f; cbn [map units_accept uaccepts orb]; [reflexivity|apply IH]. Qed.
+
+Lemma leaf_verdict_accepts t now o n :
+  match leaf_verdict t now o n with None => true | Some _ => false end =
+  spec_accepts (thr_of t) now (t_ts t) (Some o) n.
+Proof.
+  unfold leaf_verdict, spec_accepts, thr_of. rewrite future_rejected_guard.
+  destruct (Z.ltb (n_ts n) (n_ts o)); [reflexivity|].
+  destruct (Z.eqb (n_ts n) (n_ts o)); cbn [andb negb].
+  - destruct (notif_eqb o n); reflexivity.
+  - destruct (future_guard _ _ _ _); reflexivity.
+Qed.
+
+Lemma update_leaf_accepts t1 now p u n t2 r f :
+  wf_tree (t_tree t1) -> Inv f (t_tree t1) -> update_leaf t1 now p u n = (t2, r) ->
+  (forall w, r <> Panic w) ->
+  okb r = negb (sconflict f p) && spec_accepts (thr_of t1) now (t_ts t1) (slookup f p) n.
+Proof.
+  intros Hwf Hi E Hnp.
+  pose proof (update_leaf_collision_iff _ _ _ _ _ _ _ Hwf E) as Hc.
+  pose proof (sconflict_iff f _ p Hi) as Hs.
+  assert (Hnc : ~ collision r -> sconflict f p = false).
+  { intros H. destruct (sconflict f p) eqn:Hb; [|reflexivity]. exfalso. apply H, Hc, Hs. reflexivity. }
+  assert (Hcol : collision r -> sconflict f p = true) by (intros H; apply Hs, Hc, H).
+  rewrite (inv_slookup f _ Hi p).
+  unfold update_leaf in E. destruct (CTreeModel.get (t_tree t1) p) as [[old|cs]|] eqn:Hg.
+  - rewrite (proj1 (get_leaf_lookup _ _ _) Hg), <- leaf_verdict_accepts.
+    destruct (leaf_verdict t1 now old n) as [e|] eqn:Hv.
+    + inversion E; subst. cbn [okb]. now rewrite andb_false_r.
+    + rewrite andb_true_r.
+      assert (Hok : forall o, r = Ok o -> okb r = negb (sconflict f p)).
+      { intros o ->. rewrite Hnc; [reflexivity|intros [H|H]; discriminate]. }
+      destruct (n_atomic n); [inversion E; subst; eapply Hok; reflexivity|].
+      destruct (n_upd old); [inversion E; subst; exfalso; eapply Hnp; reflexivity|].
+      match type of E with (if ?b then _ else _) = _ => destruct b end;
+        inversion E; subst; eapply Hok; reflexivity.
+  - inversion E; subst. rewrite Hcol; [reflexivity|left; reflexivity].
+  - rewrite (get_none_lookup _ _ Hg). cbn [spec_accepts]. rewrite andb_true_r.
+    destruct (CTreeModel.add (t_tree t1) p n) as [tr'|]; inversion E; subst.
+    + rewrite Hnc; [reflexivity|intros [H|H]; discriminate].
+    + rewrite Hcol; [reflexivity|right; reflexivity].
+Qed.
+
+(** gnmiUpdate returns no error for a unit exactly when the specification accepts it *)
+Lemma unit_upd_accepts t now m t' r f :
+  wf_tree (t_tree t) -> Inv f (t_tree t) -> gnmi_update1 t now m = (t', r) ->
+  (forall w, r <> Panic w) ->
+  okb r = uaccepts (thr_of t) (t_ts t) now f (UUpd m).
+Proof.
+  intros Hwf Hi E Hnp. cbn [uaccepts]. destruct (unit_ok m) as [p|] eqn:Hok.
+  - destruct (gnmi_update1_unit_ok t now m p Hok) as (t1 & u & Htr & (Hts & Hc & _) & Hg).
+    rewrite Hg in E.
+    assert (Hwf1 : wf_tree (t_tree t1)) by (rewrite Htr; exact Hwf).
+    assert (Hi1 : Inv f (t_tree t1)) by (rewrite Htr; exact Hi).
+    rewrite (update_leaf_accepts _ _ _ _ _ _ _ f Hwf1 Hi1 E Hnp). unfold thr_of. now rewrite Hts, Hc.
+  - destruct (gnmi_update1_spec _ _ _ _ _ Hwf E) as (_ & _ & H). rewrite Hok in H.
+    destruct H as (_ & Hrej & _). destruct r as [o|e|w]; [exfalso; eapply Hrej; reflexivity|reflexivity|reflexivity].
+Qed.
+
+Lemma multi_update_step_all now n thr latest a u f :
+  a_panic a = None -> wf_tree (t_tree (a_t a)) -> Inv f (t_tree (a_t a)) ->
+  thr_of (a_t a) = thr -> t_ts (a_t a) = latest ->
+  a_panic (multi_update_step now n a u) = None ->
+  unit_post thr latest now f (UUpd (clone_with_update n u)) (a_t a) (a_t (multi_update_step now n a u)) /\
+  a_ok (multi_update_step now n a u) =
+  a_ok a || uaccepts thr latest now f (UUpd (clone_with_update n u)).
+Proof.
+  intros Hp Hwf Hi Hthr Hts Hp1. unfold multi_update_step in *. rewrite Hp in *.
+  destruct (gnmi_update1 (a_t a) now (clone_with_update n u)) as [t' r] eqn:E.
+  pose proof (unit_upd_all _ _ _ _ _ f Hwf Hi E) as Hu. rewrite Hthr, Hts in Hu.
+  assert (Hacc : (forall w, r <> Panic w) -> okb r = uaccepts thr latest now f (UUpd (clone_with_update n u))).
+  { intros Hnp. rewrite (unit_upd_accepts _ _ _ _ _ f Hwf Hi E Hnp), Hthr, Hts. reflexivity. }
+  destruct r as [[nd|]|e|w]; cbn [a_t a_ok a_panic] in *; (split; [exact Hu|]).
+  - rewrite <- Hacc by discriminate. cbn. now rewrite orb_true_r.
+  - rewrite <- Hacc by discriminate. cbn. now rewrite orb_true_r.
+  - rewrite <- Hacc by discriminate. cbn. now rewrite orb_false_r.
+  - discriminate.
+Qed.
+
+Lemma multi_updates_accept now n thr latest us : forall a f,
+  a_panic a = None -> wf_tree (t_tree (a_t a)) -> Inv f (t_tree (a_t a)) ->
+  thr_of (a_t a) = thr -> t_ts (a_t a) = latest ->
+  a_panic (fold_left (multi_update_step now n) us a) = None ->
+  a_ok (fold_left (multi_update_step now n) us a) =
+  a_ok a || units_accept thr latest now f (map (fun u => UUpd (clone_with_update n u)) us) /\
+  t_ts (a_t (fold_left (multi_update_step now n) us a)) = latest.
+Proof.
+  induction us as [|u us IH]; intros a f Hp Hwf Hi Hthr Hts; cbn [fold_left map units_accept].
+  - intros _. split; [now rewrite orb_false_r|exact Hts].
+  - intros Hp'.
+    assert (Hp1 : a_panic (multi_update_step now n a u) = None).
+    { destruct (a_panic (multi_update_step now n a u)) as [w|] eqn:E; [|reflexivity].
+      rewrite (multi_update_panic_sticky now n us _ w E) in Hp'. congruence. }
+    destruct (multi_update_step_all now n thr latest a u f Hp Hwf Hi Hthr Hts Hp1) as [(Hw1 & Hf1 & Hi1 & _) Hok].
+    assert (Hthr1 : thr_of (a_t (multi_update_step now n a u)) = thr).
+    { unfold thr_of in *. destruct Hf1 as (_ & Hc & _). now rewrite Hc. }
+    assert (Hts1 : t_ts (a_t (multi_update_step now n a u)) = latest) by (destruct Hf1 as (Ht & _); now rewrite Ht).
+    destruct (IH _ _ Hp1 Hw1 Hi1 Hthr1 Hts1 Hp') as [IH1 IH2].
+    split; [|exact IH2]. rewrite IH1, Hok, orb_assoc. reflexivity.
+Qed.
+
+Lemma multi_deletes_ok_ts n ds : forall a,
+  a_ok (fold_left (multi_delete_step n) ds a) = a_ok a /\
+  t_ts (a_t (fold_left (multi_delete_step n) ds a)) = t_ts (a_t a).
+Proof.
+  induction ds as [|d ds IH]; intros a; cbn [fold_left]; [split; reflexivity|].
+  destruct (IH (multi_delete_step n a d)) as [A B]. rewrite A, B.
+  unfold multi_delete_step. destruct (a_panic a); [split; reflexivity|]. cbv zeta.
+  destruct (gnmi_remove (add_int (a_t a) md_update_count 1) (clone_with_delete n d)) as [t1 r] eqn:E.
+  apply gnmi_remove_ts in E. destruct r as [rm|e|w]; cbn [a_ok a_t]; (split; [reflexivity|exact E]).
+Qed.
+
+Lemma check_timestamp_smax t z : t_ts (check_timestamp t z) = smax (t_ts t) z.
+Proof.
+  unfold check_timestamp, smax. destruct (t_ts t) as [y|] eqn:E; [|reflexivity].
+  destruct (Z.ltb_spec y z); cbn [t_ts set_ts]; [f_equal; lia|rewrite E; f_equal; lia].
+Qed.
+
+Lemma finish_ts_smax n b x :
+  t_ts (finish_ts n b x) = if tracks_ts n && b then smax (t_ts x) (n_ts n) else t_ts x.
+Proof. unfold finish_ts. destruct (tracks_ts n && b); [apply check_timestamp_smax|reflexivity]. Qed.
+
+Lemma single_update_latest t now n k t' fd r f :
+  wf_tree (t_tree t) -> Inv f (t_tree t) ->
+  match gnmi_update1 t now n with
+  | (t1, Panic w) => (finish_ts n false t1, [], GPanic w)
+  | (t1, Err e) => (finish_ts n false t1, [], GErr e)
+  | (t1, Ok None) => (finish_ts n true t1, [], GOk)
+  | (t1, Ok (Some nd)) => (finish_ts n true (add_int t1 md_update_count k), [FUpd nd], GOk)
+  end = (t', fd, r) ->
+  no_panic r ->
+  t_ts t' = if tracks_ts n && units_accept (thr_of t) (t_ts t) now f [UUpd n]
+            then smax (t_ts t) (n_ts n) else t_ts t.
+Proof.
+  intros Hwf Hi. destruct (gnmi_update1 t now n) as [t1 r1] eqn:E.
+  pose proof (gnmi_update1_ts _ _ _ _ _ E) as Hts.
+  pose proof (unit_upd_accepts _ _ _ _ _ f Hwf Hi E) as Hacc.
+  intros E2 Hnp. cbn [units_accept]. rewrite orb_false_r.
+  destruct r1 as [[nd|]|e|w]; inversion E2; subst; clear E2; [| | |contradiction];
+    rewrite <- Hacc by discriminate; rewrite finish_ts_smax; cbn [okb t_ts add_int set_meta];
+    rewrite ?Hts; reflexivity.
+Qed.
+
+Lemma multi_latest t now n us ds t' fd r f :
+  wf_tree (t_tree t) -> Inv f (t_tree t) ->
+  (let a0 := Acc t [] [] false None in
+   let a1 := fold_left (multi_update_step now n) us a0 in
+   let a2 := fold_left (multi_delete_step n) ds a1 in
+   (finish_ts n (a_ok a2) (a_t a2), a_feed a2,
+    match a_panic a2 with
+    | Some w => GPanic w
+    | None => match a_errs a2 with [] => GOk | es => GErrs es end
+    end)) = (t', fd, r) ->
+  no_panic r ->
+  t_ts t' = if tracks_ts n && units_accept (thr_of t) (t_ts t) now f
+                 (map (fun u => UUpd (clone_with_update n u)) us ++
+                  map (fun d => UDel (clone_with_delete n d)) ds)
+            then smax (t_ts t) (n_ts n) else t_ts t.
+Proof.
+  intros Hwf Hi. cbv zeta.
+  set (a0 := Acc t [] [] false None).
+  remember (fold_left (multi_update_step now n) us a0) as a1 eqn:Ha1.
+  remember (fold_left (multi_delete_step n) ds a1) as a2 eqn:Ha2.
+  intros E Hnp. inversion E; subst t' fd r; clear E.
+  assert (Hp2 : a_panic a2 = None) by (destruct (a_panic a2); [contradiction|reflexivity]).
+  assert (Hp1 : a_panic a1 = None).
+  { destruct (a_panic a1) as [w|] eqn:Ep; [|reflexivity].
+    rewrite Ha2, (multi_delete_panic_sticky n ds a1 w Ep) in Hp2. congruence. }
+  rewrite Ha1 in Hp1.
+  destruct (multi_updates_accept now n (thr_of t) (t_ts t) us a0 f eq_refl Hwf Hi eq_refl eq_refl Hp1) as [Hok Hts].
+  rewrite <- Ha1 in *.
+  destruct (multi_deletes_ok_ts n ds a1) as [Hok2 Hts2]. rewrite <- Ha2 in *.
+  rewrite finish_ts_smax, Hok2, Hts2, Hts, Hok, units_accept_app, units_accept_dels, orb_false_r.
+  reflexivity.
+Qed.
+
+(** the latest accepted timestamp after one call that does not panic *)
+Theorem notif_latest t now n t' fd r f :
+  wf_tree (t_tree t) -> Inv f (t_tree t) ->
+  target_gnmi_update t now n = (t', fd, r) -> no_panic r ->
+  t_ts t' = slatest_next (thr_of t) (t_ts t) now f n.
+Proof.
+  intros Hwf Hi. unfold target_gnmi_update, slatest_next, units.
+  destruct (n_atomic n).
+  - destruct (n_del n) as [|d ds].
+    + destruct (n_upd n) as [|u us] eqn:Hu.
+      * intros E _; inversion E; subst. now rewrite andb_false_r.
+      * intros E Hnp. eapply single_update_latest; eauto.
+    + intros E _; inversion E; subst. destruct (n_upd n); now rewrite andb_false_r.
+  - destruct (n_upd n) as [|u [|u2 us]] eqn:Hu; destruct (n_del n) as [|d [|d2 ds]] eqn:Hd.
+    + intros E _; inversion E; subst. now rewrite andb_false_r.
+    + destruct (gnmi_remove (add_int t md_update_count 1) n) as [t1 r1] eqn:E.
+      apply gnmi_remove_ts in E. cbn [units_accept uaccepts orb]. rewrite andb_false_r.
+      intros E2 _. destruct r1 as [rm|e|w]; inversion E2; subst; exact E.
+    + apply (multi_latest t now n [] (d :: d2 :: ds)); assumption.
+    + intros E Hnp. eapply single_update_latest; eauto.
+    + apply (multi_latest t now n [u] [d]); assumption.
+    + apply (multi_latest t now n [u] (d :: d2 :: ds)); assumption.
+    + apply (multi_latest t now n (u :: u2 :: us) []); assumption.
+    + apply (multi_latest t now n (u :: u2 :: us) [d]); assumption.
+    + apply (multi_latest t now n (u :: u2 :: us) (d :: d2 :: ds)); assumption.
+Qed.
+
+(** K_P's "tracked" test ([C02Check.stracks]) is the model's [tracks_ts]: the
+    flat specification run by the harness moves its [s_latest] by the rule of
+    [slatest_next] *)
+Lemma K_tracks_sound n : stracks n = tracks_ts n.
+Proof.
+  unfold stracks, tracks_ts, raw_index. destruct (n_upd n) as [|u us]; reflexivity.
+Qed.
+
+(** * Histories, specification side only: no target on the right-hand side *)
+
+Fixpoint sfrun (thr : Z) (latest : option Z) (f : fmap) (H : hist) : fmap :=
+  match H with
+  | [] => f
+  | h :: H' => sfrun thr (slatest_next thr latest (fst h) f (snd h))
+                     (funits thr latest (fst h) f (units (snd h))) H'
+  end.
+
+Fixpoint slatest (thr : Z) (latest : option Z) (f : fmap) (H : hist) : option Z :=
+  match H with
+  | [] => latest
+  | h :: H' => slatest thr (slatest_next thr latest (fst h) f (snd h))
+                       (funits thr latest (fst h) f (units (snd h))) H'
+  end.
+
+Fixpoint project_spec (thr : Z) (latest : option Z) (f : fmap) (H : hist) (q : path) : list lev :=
+  match H with
+  | [] => []
+  | h :: H' =>
+      units_events thr latest (fst h) q f (units (snd h)) ++
+      project_spec thr (slatest_next thr latest (fst h) f (snd h))
+                   (funits thr latest (fst h) f (units (snd h))) H' q
+  end.
+
+Lemma tstep_latest t h f :
+  wf_tree (t_tree t) -> Inv f (t_tree t) -> no_panic (tres t h) ->
+  t_ts (tstep t h) = slatest_next (thr_of t) (t_ts t) (fst h) f (snd h).
+Proof.
+  intros Hwf Hi Hnp. unfold tstep, tres in *.
+  destruct (target_gnmi_update t (fst h) (snd h)) as [[t' fd] r] eqn:E. cbn [fst snd] in *.
+  exact (notif_latest _ _ _ _ _ _ f Hwf Hi E Hnp).
+Qed.
+
+(** the model-reading projections of round 7 coincide with the pure ones, and
+    the model's latest accepted timestamp is the specification's *)
+Theorem spec_side_latest H : forall t f,
+  wf_tree (t_tree t) -> Inv f (t_tree t) -> no_panic_history t H ->
+  (forall q, project_all (thr_of t) t f H q = project_spec (thr_of t) (t_ts t) f H q) /\
+  frun (thr_of t) t f H = sfrun (thr_of t) (t_ts t) f H /\
+  t_ts (trun t H) = slatest (thr_of t) (t_ts t) f H.
+Proof.
+  induction H as [|h H IH]; intros t f Hwf Hi Hnp;
+    cbn [trun fold_left project_all project_spec frun sfrun slatest]; [repeat split|].
+  destruct Hnp as [Hn1 Hn2].
+  destruct (tstep_all t h f Hwf Hi Hn1) as (Hw & Hcfg & _ & Hi' & _).
+  pose proof (tstep_latest t h f Hwf Hi Hn1) as Hts.
+  assert (Hthr : thr_of (tstep t h) = thr_of t) by (unfold thr_of; now rewrite Hcfg).
+  destruct (IH (tstep t h) _ Hw Hi' Hn2) as (A & B & C). rewrite Hthr, Hts in A, B, C.
+  fold (trun (tstep t h) H).
+  split; [intros q; now rewrite A|]. split; [exact B|exact C].
+Qed.
+
+(** C02 with a right-hand side that mentions no model state: the leaf is the
+    fold of the four-line rule over [project_spec], a function of the history,
+    the threshold and the index path alone; so are the flat map and the latest
+    accepted timestamp *)
+Theorem leaf_holds_newest_spec name cfg (H : hist) (q : path) :
+  no_panic_history (new_target name cfg) H ->
+  lookup (t_tree (trun (new_target name cfg) H)) q =
+    spec_leaf (cfg_future_threshold cfg) (project_spec (cfg_future_threshold cfg) None [] H q) /\
+  lookup (t_tree (trun (new_target name cfg) H)) q =
+    slookup (sfrun (cfg_future_threshold cfg) None [] H) q /\
+  t_ts (trun (new_target name cfg) H) = slatest (cfg_future_threshold cfg) None [] H.
+Proof.
+  intros Hnp.
+  destruct (leaf_holds_newest_all name cfg H q Hnp) as [A B].
+  destruct (spec_side_latest H (new_target name cfg) [] I inv_nil Hnp) as (P & F & L).
+  change (thr_of (new_target name cfg)) with (cfg_future_threshold cfg) in P, F, L.
+  change (t_ts (new_target name cfg)) with (@None Z) in P, F, L.
+  rewrite <- P, <- F. split; [exact A|]. split; [exact B|exact L].
+Qed.
+
+(** non-vacuity: on [ex_hist_all] the future guard's reference moves 2 -> 5
+    (the accepted a/b/c at 5; the refused a/b at 9 does not move it), and a
+    too-far-ahead update judged against it is kept out *)
+Definition ex_hist_spec : hist := ex_hist_all ++ [(0, ex_bc 9); (0, ex_bc 7)].
+
+Example ex_hist_spec_events :
+  no_panic_history ex_t0 ex_hist_spec /\
+  slatest 2 None [] ex_hist_all = Some 5 /\
+  slatest 2 None [] ex_hist_spec = Some 7 /\
+  project_spec 2 None [] ex_hist_spec ["a"; "b"; "c"] =
+    [LDel 3; LUpd 0 (Some 2) (ex_bc 5); LDel 3; LUpd 0 (Some 5) (ex_bc 9); LUpd 0 (Some 5) (ex_bc 7)] /\
+  lookup (t_tree (trun ex_t0 ex_hist_spec)) ["a"; "b"; "c"] = Some (ex_bc 7).
 Proof. vm_compute. repeat split. Qed.
